@@ -84,6 +84,37 @@ def drive(ctx, binary, mode, vectors, k, label, timeout=900, extra=()):
     return vlib.read_ndjson(rp), summary
 
 
+def concurrent_stage(ctx, binary, vectors, par, seconds, label, sequential_keys=()):
+    """Encoders are functions of their arguments and the destination buffer only: the same cases on `par`
+    goroutines at once.  A finding is reproduced by running the stage a second time (it cannot be reproduced by a
+    sequential re-execution: that is the point) and is reported under C03:concurrent:<key>."""
+    def once(tag):
+        vp = os.path.join(ctx.scratch, "%s.vec.ndjson" % tag)
+        rp = os.path.join(ctx.scratch, "%s.res.ndjson" % tag)
+        vlib.write_ndjson(vp, vectors)
+        p = vlib.run_driver(ctx, binary, ["-concurrent", vp, "-out", rp, "-par", par, "-dur", seconds], timeout=int(seconds) + 300)
+        return vlib.read_ndjson(rp), json.loads(p.stdout.strip().splitlines()[-1])
+    results, summary = once(label)
+    byid = {v["id"]: v for v in vectors}
+    prop = {}
+    for r in results:
+        for f in r.get("findings", []):
+            if f["level"] == "prop" and f["key"] not in sequential_keys:     # not already shown (and reported) sequentially
+                prop.setdefault("C03:concurrent:" + f["key"].split(":", 1)[-1], []).append((r, f))
+    if prop:
+        again, _ = once(label + "-confirm")
+        seen = {"C03:concurrent:" + f["key"].split(":", 1)[-1] for r in again for f in r.get("findings", []) if f["level"] == "prop"}
+        for key, lst in sorted(prop.items()):
+            if key not in seen:
+                raise vlib.InfraError("concurrent-stage finding %s did not reproduce in a second run" % key)
+            r, f = lst[0]
+            ids = {x["id"] for x, _ in lst[:20]}
+            sample = [byid[i] for i in sorted(ids)] + vectors[:200]
+            replay = {"mode": "concurrent", "key": key, "par": par, "seconds": max(3, seconds), "vectors": sample, "seed": ctx.seed, "k": 1}
+            ctx.report(key, "only when encoders run concurrently in separate buffers: " + f["what"], replay)
+    return summary
+
+
 def abstract_digest(v):
     return vlib.digest({k: x for k, x in v.items() if k != "id"})
 
@@ -140,6 +171,19 @@ def replay(ctx, path, remap=None):
     rp = obj["replay"]
     ctx.seed = rp.get("seed", obj.get("seed", ctx.seed))
     binary = build_driver(ctx)
+    if rp["mode"] == "concurrent":
+        vp = os.path.join(ctx.scratch, "replay.vec.ndjson")
+        out = os.path.join(ctx.scratch, "replay.res.ndjson")
+        vlib.write_ndjson(vp, rp["vectors"])
+        vlib.run_driver(ctx, binary, ["-concurrent", vp, "-out", out, "-par", rp["par"], "-dur", rp["seconds"]], timeout=600)
+        for r in vlib.read_ndjson(out):
+            for f in r.get("findings", []):
+                if f["level"] == "prop" and "C03:concurrent:" + f["key"].split(":", 1)[-1] == rp["key"]:
+                    print("VIOLATION property=%s replay=%s" % (ctx.pid, path))
+                    vlib.log("  reproduced: %s" % f["what"])
+                    return 1
+        print("not reproduced")
+        return 0
     if rp["mode"] == "frames":
         fp = os.path.join(ctx.scratch, "replay.hex")
         open(fp, "w").write(rp["frame"] + "\n")
